@@ -90,8 +90,38 @@ def search(ctx, hints):
                 stats = {}
         elif line.startswith('SAMPLE ') and len(samples) < 4:
             samples.append(dict(probe=line[7:300]))
+    race_note = None
+    if ctx.thorough():
+        # concurrency evidence (not proof): the history / concurrency probe under the race detector
+        rb, rlog = vlib.go_build(ctx, vlib.HARNESS, './cmd/c12', 'c12race', race=True)
+        if rb:
+            cwd2 = ctx.scratch('c12race')
+            rc2, so2, se2 = vlib.run([rb, 'mode=history', 'n=2'], cwd=cwd2, env=dict(env, GORACE='halt_on_error=0'), timeout=1200)
+            shutil.rmtree(cwd2, ignore_errors=True)
+            for line in so2.split('\n'):
+                if line.startswith('VIOL '):
+                    v = json.loads(line[5:])
+                    viol.append(dict(key=v.get('key'), desc=v.get('desc'), replay=v.get('replay')))
+            # only reports whose stacks touch the EVM or the account state count: the node's own start-up
+            # (goleveldb opened by InitMiddleware) produces reports that have nothing to do with frames
+            blocks = [b for b in se2.split('==================') if 'DATA RACE' in b]
+            mine = [b for b in blocks if '/src/vm/' in b or '/src/storage/account/' in b]
+            # the unsynchronised package-level cache of the ERC-20 ledger address (accountdb_eth.go:49/54,
+            # listed in global_writes_as_modelled): every AccountDB writes the same value into it; it is a data
+            # race of the code base but cannot make a frame leave a trace, so it is reported as evidence only
+            cache = [b for b in mine if 'loadContractCache' in b]
+            mine = [b for b in mine if 'loadContractCache' not in b]
+            if mine:
+                viol.append(dict(key='race:evm-on-distinct-states', desc='race detector report while EVMs ran on distinct AccountDBs: ' + mine[0][:2500],
+                                 replay=dict(cmd='go build -race ./cmd/c12 && c12race mode=history')))
+            ran = 'history_rounds' in so2
+            race_note = 'race build ran mode=history n=2: rc=%d, probe completed=%s, race reports=%d (node start-up / goleveldb included), in vm or storage/account=%d, of which on the rpgContractAddress cache=%d (benign same-value writes, not a C12 violation)' % (rc2, ran, len(blocks), len(mine) + len(cache), len(cache))
+            if not ran:
+                race_note += ' (probe did not complete: ' + se2[-200:].replace('\n', ' ') + ')'
+        else:
+            race_note = 'race build failed: ' + rlog[-300:]
     res = dict(evaluations=stats.get('probes', 0), distinct_nontrivial=stats.get('distinct', 0),
-               violations=viol, samples=samples, stats=stats)
+               violations=viol, samples=samples, stats=stats, concurrency_evidence=race_note)
     if rc != 0:
         res['error'] = 'searcher exited %d: %s' % (rc, (se or so)[-600:])
     return res
